@@ -68,6 +68,7 @@ pub const OP_NOP: u8 = 0;
 pub const OP_READV: u8 = 1;
 pub const OP_WRITEV: u8 = 2;
 pub const OP_FSYNC: u8 = 3;
+pub const OP_POLL_ADD: u8 = 6;
 pub const OP_SENDMSG: u8 = 9;
 pub const OP_RECVMSG: u8 = 10;
 pub const OP_ACCEPT: u8 = 13;
@@ -119,6 +120,7 @@ pub fn opcode_name(op: u8) -> &'static str {
         OP_READV => "READV",
         OP_WRITEV => "WRITEV",
         OP_FSYNC => "FSYNC",
+        OP_POLL_ADD => "POLL_ADD",
         OP_SENDMSG => "SENDMSG",
         OP_RECVMSG => "RECVMSG",
         OP_ACCEPT => "ACCEPT",
@@ -973,8 +975,36 @@ struct Msghdr {
     _pad2: u32,
 }
 
+pub const SOCKET_OP_GETSOCKOPT: u32 = 2;
+pub const SOCKET_OP_SETSOCKOPT: u32 = 3;
+pub const SOCKET_OP_GETSOCKNAME: u32 = 5;
+
+/// When set, a CLOSE submission made by a `Close` future (`user_data` > 3) is an
+/// ordinary in-flight submission that completes when the script posts for it
+/// (the `life` component); closes made by dropping an `AsyncFd` stay synchronous.
+pub static DEFER_CLOSE_OPS: AtomicBool = AtomicBool::new(false);
+
+/// When set, a successful completion also writes plausible bytes into the
+/// request's out-parameters (`SimRing::write_out_params`); components that write
+/// them themselves before posting (`encode`) leave it off.
+pub static WRITE_OUT_PARAMS: AtomicBool = AtomicBool::new(false);
+
+/// Length (including the terminating NUL) of the C string at `addr`.
+fn cstr_len(addr: u64) -> usize {
+    if addr == 0 {
+        return 0;
+    }
+    // A path that was already freed is still readable (quarantine / poison pattern);
+    // bound the scan so that garbage cannot run away.
+    let mut n = 0usize;
+    while n < 4096 && unsafe { *((addr as usize + n) as *const u8) } != 0 {
+        n += 1;
+    }
+    n + 1
+}
+
 /// User memory regions the kernel may touch for this submission.
-fn regions_of(sqe: &Sqe) -> Vec<Region> {
+pub fn regions_of(sqe: &Sqe) -> Vec<Region> {
     let mut v = Vec::new();
     let buf_select = sqe.flags & IOSQE_BUFFER_SELECT != 0;
     match sqe.opcode {
@@ -1012,6 +1042,9 @@ fn regions_of(sqe: &Sqe) -> Vec<Region> {
                     }
                 }
             }
+            if m.control != 0 {
+                v.push(region("msg-control", m.control, m.controllen as usize));
+            }
         }
         OP_ACCEPT => {
             if sqe.addr != 0 && sqe.off != 0 {
@@ -1026,14 +1059,14 @@ fn regions_of(sqe: &Sqe) -> Vec<Region> {
             v.push(region("addr", sqe.addr, sqe.off as usize));
         }
         OP_OPENAT | OP_UNLINKAT | OP_MKDIRAT => {
-            v.push(region("path", sqe.addr, 1));
+            v.push(region("path", sqe.addr, cstr_len(sqe.addr)));
         }
         OP_RENAMEAT => {
-            v.push(region("path", sqe.addr, 1));
-            v.push(region("path2", sqe.off, 1));
+            v.push(region("path", sqe.addr, cstr_len(sqe.addr)));
+            v.push(region("path2", sqe.off, cstr_len(sqe.off)));
         }
         OP_STATX => {
-            v.push(region("path", sqe.addr, 1));
+            v.push(region("path", sqe.addr, cstr_len(sqe.addr)));
             v.push(region("statx", sqe.off, 256));
         }
         OP_WAITID => {
@@ -1047,10 +1080,24 @@ fn regions_of(sqe: &Sqe) -> Vec<Region> {
         OP_PIPE => {
             v.push(region("fds", sqe.addr, 8));
         }
-        OP_URING_CMD => {
-            // socket commands: optval
-            if sqe.addr3 != 0 || sqe.pad2 != 0 {}
-        }
+        OP_URING_CMD => match sqe.off as u32 {
+            // socket commands: cmd_op in the low half of `off`
+            SOCKET_OP_GETSOCKOPT | SOCKET_OP_SETSOCKOPT => {
+                // optval = addr3, optlen = file_index
+                if sqe.addr3 != 0 {
+                    v.push(region("optval", sqe.addr3, sqe.file_index as usize));
+                }
+            }
+            SOCKET_OP_GETSOCKNAME => {
+                // addr = sockaddr, addr3 = socklen_t*
+                if sqe.addr != 0 && sqe.addr3 != 0 {
+                    v.push(region("addrlen", sqe.addr3, 4));
+                    let l = unsafe { *(sqe.addr3 as *const u32) };
+                    v.push(region("addr", sqe.addr, l as usize));
+                }
+            }
+            _ => {}
+        },
         _ => {}
     }
     v
@@ -1156,7 +1203,7 @@ impl SimRing {
                     self.post_raw(None, Cqe { user_data: sqe.user_data, res, flags: 0 }, ev);
                 }
             }
-            OP_CLOSE => {
+            OP_CLOSE if !(sqe.user_data > 3 && DEFER_CLOSE_OPS.load(Ordering::SeqCst)) => {
                 let direct = sqe.file_index != 0;
                 let res = if direct {
                     let idx = (sqe.file_index - 1) as usize;
@@ -1371,6 +1418,8 @@ impl SimRing {
             }
         }
 
+        self.write_out_params(&sqe, spec);
+
         self.inflight[pos].posted += 1;
         if is_final {
             self.inflight.remove(pos);
@@ -1437,6 +1486,89 @@ impl SimRing {
                     let k = rest.len().min(v.len as usize);
                     unsafe { std::ptr::copy_nonoverlapping(rest.as_ptr(), v.base as *mut u8, k) };
                     rest = &rest[k..];
+                }
+            }
+            _ => {}
+        }
+    }
+
+    /// What a successful completion writes into the out-parameters of the
+    /// request besides the payload: peer / local address + length, `msg_namelen`
+    /// and `msg_flags`, the statx buffer, `siginfo_t` of WAITID, the value of
+    /// GETSOCKOPT, the two descriptors of PIPE, the slot allocated by
+    /// FILES_UPDATE. (The regions were checked to be live just before.)
+    fn write_out_params(&mut self, sqe: &Sqe, spec: &PostSpec) {
+        if spec.res < 0 || !WRITE_OUT_PARAMS.load(Ordering::SeqCst) {
+            return;
+        }
+        // 127.0.0.1:4660 as `sockaddr_in`
+        let sin: [u8; 16] = {
+            let mut b = [0u8; 16];
+            b[0..2].copy_from_slice(&(libc::AF_INET as u16).to_ne_bytes());
+            b[2..4].copy_from_slice(&4660u16.to_be_bytes());
+            b[4..8].copy_from_slice(&[127, 0, 0, 1]);
+            b
+        };
+        let put = |dst: u64, bytes: &[u8], cap: usize| {
+            let n = bytes.len().min(cap);
+            unsafe { std::ptr::copy_nonoverlapping(bytes.as_ptr(), dst as *mut u8, n) };
+        };
+        match sqe.opcode {
+            OP_ACCEPT if sqe.addr != 0 && sqe.off != 0 => {
+                let cap = unsafe { *(sqe.off as *const u32) } as usize;
+                put(sqe.addr, &sin, cap);
+                unsafe { *(sqe.off as *mut u32) = 16 };
+            }
+            OP_RECVMSG => {
+                let m = unsafe { &mut *(sqe.addr as *mut Msghdr) };
+                if m.name != 0 {
+                    put(m.name, &sin, m.namelen as usize);
+                    m.namelen = 16;
+                }
+            }
+            OP_STATX if sqe.off != 0 => {
+                let mut b = [0u8; 256];
+                b[0..4].copy_from_slice(&(sqe.len & 0xfff).to_ne_bytes()); // stx_mask
+                b[4..8].copy_from_slice(&4096u32.to_ne_bytes()); // stx_blksize
+                b[16..20].copy_from_slice(&1u32.to_ne_bytes()); // stx_nlink
+                b[28..30].copy_from_slice(&((libc::S_IFREG | 0o644) as u16).to_ne_bytes()); // stx_mode
+                b[40..48].copy_from_slice(&1234u64.to_ne_bytes()); // stx_size
+                b[48..56].copy_from_slice(&8u64.to_ne_bytes()); // stx_blocks
+                for off in [64usize, 80, 96, 112] {
+                    // stx_atime, stx_btime, stx_ctime, stx_mtime
+                    b[off..off + 8].copy_from_slice(&1_700_000_000i64.to_ne_bytes());
+                }
+                put(sqe.off, &b, 256);
+            }
+            OP_WAITID if sqe.off != 0 => {
+                let mut b = [0u8; 128];
+                b[0..4].copy_from_slice(&libc::SIGCHLD.to_ne_bytes()); // si_signo
+                b[8..12].copy_from_slice(&libc::CLD_EXITED.to_ne_bytes()); // si_code
+                b[16..20].copy_from_slice(&sqe.fd.to_ne_bytes()); // si_pid
+                b[24..28].copy_from_slice(&7i32.to_ne_bytes()); // si_status
+                put(sqe.off, &b, 128);
+            }
+            OP_URING_CMD => match sqe.off as u32 {
+                SOCKET_OP_GETSOCKOPT if sqe.addr3 != 0 => {
+                    put(sqe.addr3, &1i32.to_ne_bytes(), sqe.file_index as usize);
+                }
+                SOCKET_OP_GETSOCKNAME if sqe.addr != 0 && sqe.addr3 != 0 => {
+                    let cap = unsafe { *(sqe.addr3 as *const u32) } as usize;
+                    put(sqe.addr, &sin, cap);
+                    unsafe { *(sqe.addr3 as *mut u32) = 16 };
+                }
+                _ => {}
+            },
+            OP_PIPE if sqe.addr != 0 => {
+                if let Some(d) = &spec.data {
+                    put(sqe.addr, d, 8);
+                }
+            }
+            OP_FILES_UPDATE if sqe.off as u32 == u32::MAX && sqe.addr != 0 => {
+                // IORING_FILE_INDEX_ALLOC: the allocated slot is written back
+                match &spec.data {
+                    Some(d) => put(sqe.addr, d, 4 * sqe.len as usize),
+                    None => put(sqe.addr, &0i32.to_ne_bytes(), 4 * sqe.len as usize),
                 }
             }
             _ => {}
